@@ -11,12 +11,12 @@ desc={
 'C07':("exploration","seeded failing calls (every cause, 1-4 per handshake, both sides, retransmission until success) with observables compared before/after (turn, finished, hash, nonces, remote static), shadow-model equality of all later bytes, a control run (same ops with failed calls removed, per-call deterministic RNG) whose wire trace must be identical, the complete one-failure grid (64 pattern/psk variants x DH x message index x 15 failure causes), and long handshake histories (soak-hs: hundreds of failing writes and rejected reads before every genuine message, 10 patterns x 2 backends)","5.C07, 12.1, 13.2"),
 'C08':("exploration","configuration faults: peers booted with one differing context item (name component incl. DH function, psk index and modifier order, prologue bit/length incl. tails beyond 65535 bytes, PSK bit, over-long PSK through set_psk, pre-shared static key incl. masked bit 255); never both finished, no transport message accepted, plus cross-session transport substitution","5.C08"),
 'C09':("exploration","nonce model over interleaved successful/failing reads/writes with counters placed at 2^64-3..2^64-1 (hook for the sending side), stateless boundary nonces, manual/automatic rekeys at the boundary (complete depth-4 grid at 2^64-3), recording cipher proving 2^64-1 is only used by rekey; long histories (soak) in which the counters pass 255/256 and 65535/65536 by counting","5.C09, 13.2"),
-'C10':("exploration","chaos driver + panic monitor (catch_unwind at every call) over all session states with adversarial buffers (incl. 1-15 bytes of slack), messages, keys of length 0..200, invalid P-256 scalars, unbuildable names, PSK arguments; the complete boundary sweep (every buffer / message length within +-2 of every field boundary for 64 pattern/psk variants x DH x message index, and around the tag in both transport modes); watchdog for non-termination (60 s per run); name strings by plain seeded generation","5.C10"),
+'C10':("exploration","chaos driver + panic monitor (catch_unwind at every call) over all session states with adversarial buffers (incl. 1-15 bytes of slack), messages, keys of length 0..200, invalid P-256 scalars, unbuildable names, PSK arguments; the complete boundary sweep (every buffer / message length within +-2 of every field boundary for 64 pattern/psk variants x DH x message index, and around the tag in both transport modes); watchdog for non-termination (60 s per run); name strings by plain seeded generation plus a complete list of multi-psk names with an out-of-range index at every list position - whatever parses is also built in both roles; snow is compiled with overflow checks and debug assertions; positional resolver denial (only the k-th request refused); long handshake histories (soak-hs)","5.C10, 12.2c"),
 'C11':("exploration","random call sequences (out-of-turn, after-finish, early conversion, one-way misuse) against a 10-line state-machine model, pinned state-error variants for single-cause calls, indicators compared after every call, later divergence after a misuse attributed; plus the complete set of call sequences of depth 4 (quick) / 6 (thorough) over six calls for six patterns","5.C11, 12.1"),
-'C12':("fault_enumeration","boot half enumerated completely (38 patterns x role x key subsets x psk modifier 0..9 / multi / fallback / unbuildable spellings x denied primitive) against requirements derived from the pattern text; run-time half sampled (withheld PSKs must fail at the message that needs them, then succeed after set_psk; shuffled modifier order)","5.C12"),
+'C12':("fault_enumeration","boot half enumerated completely (38 patterns x role x key subsets x psk modifier 0..9 / multi (incl. an out-of-range index at every list position) / fallback / unbuildable spellings x denied primitive, entirely or at the k-th request) against requirements derived from the pattern text; run-time half sampled (withheld PSKs must fail at the message that needs them - also after a refused set_psk and with PSKs sitting in slots the name does not use - then succeed after set_psk; shuffled modifier order; builder calls in every order)","5.C12, 12.2c"),
 'C14':("exploration","field-map length prediction from the model for every write/read, buffers placed at every field boundary; plus the complete grid pattern x DH x message index x payload {max-1..max+17} x 7 buffer sizes, repeated in both transport modes with extended/truncated/forged oversize copies","5.C14, 12.1"),
-'C15':("exploration","random sequences of writes, deliveries and unilateral/synchronised/manual rekeys (incl. repeated, at nonce boundaries, both directions in one call); model applies the spec's REKEY to its own keys: byte-for-byte ciphertext equality and accept <=> keys equal; plus the complete depth-4 grid over {write, deliver, rekey outgoing, rekey incoming, manual key on either side}","5.C15"),
-'C16':("exploration","logical clients interleaved on shared stateless sessions (any order, repetition, boundary nonces, tight buffers, rejected reads in between) against model AEAD; real threads under shuttle (random + PCT schedulers); thorough adds Miri (preemptive seeded scheduling, data-race detection); supplementary OS-thread stress after key changes (uncontrolled scheduler)","5.C16, 12.1"),
+'C15':("exploration","random sequences of writes, deliveries and unilateral/synchronised/manual rekeys (incl. repeated, at nonce boundaries, both directions in one call); model applies the spec's REKEY to its own keys: byte-for-byte ciphertext equality and accept <=> keys equal; manual key values incl. all-zero, all-0xFF, one key for both directions, the other direction's key; plus the complete depth-4 grid over {write, deliver, rekey outgoing, rekey incoming, manual key on either side}","5.C15, 12.2c"),
+'C16':("exploration","logical clients interleaved on shared stateless sessions (any order, repetition, boundary nonces, tight buffers, rejected reads in between) against model AEAD; real threads under shuttle (random + PCT schedulers); thorough adds Miri (preemptive seeded scheduling, data-race detection); supplementary OS-thread stress (uncontrolled scheduler): spin-rendezvous threads doing concurrent writes on one end and reads of distinct genuine messages on the other (exact-fit, slack, ample buffers) right after key changes, 3 ciphers x backends; long histories (soak: more than 2^18 / 2^20 messages per key and direction, stateful vs stateless twin)","5.C16, 12.1, 12.2c"),
 'C17':("exploration","monitor: after every call and after both conversions get_remote_static() must equal the model's knowledge of the peer key (32- and 65-byte keys, pinned superfluous keys, byzantine keys); after a failed read it must equal its value before the call","5.C17, 12.1"),
 'C19':("exploration","after every read rejected for authentication the pre-filled output buffer is searched for the genuine payload plaintext (aligned windows tolerant to a few altered bytes) and for the sender's static key; seeded runs plus the complete grid cipher x backend x read path x alteration x payload buffer (exact, +1, +15, message size, ample) x payload length 16..40000","5.C19"),
 'C20':("exploration","twin universes: the same seeded run re-executed under 5 backend assignments must give identical wire bytes and Ok/Err results; fallback table enumerated completely with tagged stub resolvers (availability per kind and per choice, query order); rekey sequences (complete depth-4 grid) in twin universes","5.C20"),
@@ -60,14 +60,14 @@ m={
  "setup_cmd":"cd /verif/sim && CARGO_NET_OFFLINE=true cargo build --release --offline",
  "hooks":{
    "guard":"cargo feature verif-hooks",
-   "enable":"snowsim depends on snow = { path = \"/repo\", features = [\"ring-resolver\", \"use-p256\", \"use-xchacha20poly1305\", \"verif-hooks\"] }",
+   "enable":"snowsim depends on snow = { path = \"/repo\", features = [\"ring-resolver\", \"use-p256\", \"use-xchacha20poly1305\", \"verif-hooks\", \"risky-raw-split\"] } with overflow-checks and debug-assertions switched on for the snow package",
    "baseline_off_cmd":"cd /repo && cargo test --workspace --no-fail-fast --offline",
    "source_commits":hooks,
    "add_only":True
  },
  "engines":[{"name":"snowsim","path":"/verif/sim","serves_properties":list(desc.keys()),"kind_free_text":"deterministic simulator (seeded PRNG scheduler, in-memory link, RNG/resolver seams, shadow reference model, fault injection, minimising replay) around the real snow crate; /verif/sim-miri is its Miri layer for C16 thorough"}],
  "checks":checks,
- "notes":"Exit codes: 0 held (KNOWN-FINDING lines allowed), 1 VIOLATION, 2 harness error. VERIF_SEED (default 1) decides every run. known_findings.json lists genuine defects (fixed and open). /verif/seeded holds confirmed property-breaking changes used to test the checks (DESIGN.md section 13).",
+ "notes":"Exit codes: 0 held (KNOWN-FINDING lines allowed), 1 VIOLATION, 2 harness error. VERIF_SEED (default 1) decides every run. known_findings.json lists genuine defects (fixed and open). /verif/seeded holds confirmed property-breaking changes from blind sub-agents used to test the checks (DESIGN.md section 13); /verif/redteam holds those of a white-box review (section 12.2c). Every check also runs a small slice of every seeded scenario that is not one of its own (x-<scenario>) and reports only violations of its own property.",
  "not_applicable":[
    {"property_id":"C13","reason":"protocol-name parsing is a pure function of one string: no schedule, peer, fault, retry or shared state for a simulator to control; deciding it would be grammar-based input generation, not this technique"},
    {"property_id":"C18","reason":"HMAC/HKDF/AEAD/DH wrappers are pure, stateless, single-party functions of (key, nonce, ad, data); nothing to schedule or fault (only incidentally reached through sessions in C01/C15/C16/C20)"}
